@@ -191,7 +191,7 @@ func c08Bloom(w *mc.W, cas c08Case) {
 			tx.AddTxOut(wire.NewTxOut(1, c10OutScript(c10OutKinds[sel%len(c10OutKinds)]), wire.TokenData{}))
 			tx.AddTxOut(wire.NewTxOut(1, c10OutScript(c10OutKinds[(sel/3)%len(c10OutKinds)]), wire.TokenData{}))
 			f.MatchTxAndUpdate(bchutil.NewTx(tx))
-			blk := wire.NewMsgBlock(wire.NewBlockHeader(1, &chainhash.Hash{}, &chainhash.Hash{}, 0, 0))
+			blk := wire.NewMsgBlock(fixedHeader(1, &chainhash.Hash{}, &chainhash.Hash{}, 0, 0))
 			blk.AddTransaction(tx)
 			bloom.NewMerkleBlock(bchutil.NewBlock(blk), f)
 		}
@@ -218,7 +218,7 @@ func c08Growth(w *mc.W, cas c08Case) {
 		tx.AddTxOut(wire.NewTxOut(1, c10OutScript("p2pk-K1"), wire.TokenData{}))
 		txs = append(txs, tx)
 	}
-	blk := wire.NewMsgBlock(wire.NewBlockHeader(1, &chainhash.Hash{}, &chainhash.Hash{}, 0, 0))
+	blk := wire.NewMsgBlock(fixedHeader(1, &chainhash.Hash{}, &chainhash.Hash{}, 0, 0))
 	for i := n - 1; i >= 0; i-- {
 		blk.AddTransaction(txs[i])
 	}
@@ -642,10 +642,10 @@ func c08HonestTxs() []*wire.MsgTx {
 }
 
 func c08HonestBlocks(txs []*wire.MsgTx) []*wire.MsgBlock {
-	b1 := wire.NewMsgBlock(wire.NewBlockHeader(1, &chainhash.Hash{1}, &chainhash.Hash{2}, 3, 4))
+	b1 := wire.NewMsgBlock(fixedHeader(1, &chainhash.Hash{1}, &chainhash.Hash{2}, 3, 4))
 	b1.AddTransaction(txs[0])
 	b1.AddTransaction(txs[1])
-	b2 := wire.NewMsgBlock(wire.NewBlockHeader(1, &chainhash.Hash{1}, &chainhash.Hash{2}, 3, 4))
+	b2 := wire.NewMsgBlock(fixedHeader(1, &chainhash.Hash{1}, &chainhash.Hash{2}, 3, 4))
 	for _, t := range txs {
 		b2.AddTransaction(t)
 	}
